@@ -321,44 +321,58 @@ Proof.
   replace (Z.to_nat (Z.min (Z.of_nat i) (Z.of_nat (List.length l)))) with i by lia. reflexivity.
 Qed.
 
-Lemma magic_shape_nonneg magic (i : nat) p :
-  i <= List.length p ->
-  insert_magic_int magic (Z.of_nat i) p = firstn i p ++ OConst (CInt magic) :: OPop :: skipn i p.
+Lemma py_insert_length {A} (i : Z) (x : A) l : List.length (py_insert i x l) = S (List.length l).
 Proof.
-  intros L. unfold insert_magic_int.
-  destruct (Z.of_nat i =? -1)%Z eqn:E; [lia|].
-  rewrite py_insert_nonneg by exact L.
-  replace (Z.of_nat i + 1)%Z with (Z.of_nat (S i)) by lia.
-  rewrite py_insert_nonneg.
-  2:{ rewrite app_length, firstn_length. cbn [List.length]. rewrite skipn_length. lia. }
-  assert (List.length (firstn i p) = i) as FL by (rewrite firstn_length; lia).
-  replace (S i) with (List.length (firstn i p) + 1) by lia.
+  unfold py_insert. rewrite app_length. cbn [List.length]. rewrite firstn_length, skipn_length.
+  destruct (i <? 0)%Z; lia.
+Qed.
+
+(* where the marker ends up: slot j = the resolved index clamped to the length *)
+Definition magic_pos (index : Z) (p : list op) : nat :=
+  Nat.min (Z.to_nat (magic_slot index p)) (List.length p).
+
+Lemma magic_slot_nonneg index p : (0 <= magic_slot index p)%Z.
+Proof. unfold magic_slot. destruct (index <? 0)%Z eqn:E; lia. Qed.
+
+Lemma magic_shape magic index p :
+  insert_magic_int magic index p =
+  firstn (magic_pos index p) p ++ OConst (CInt magic) :: OPop :: skipn (magic_pos index p) p.
+Proof.
+  unfold insert_magic_int, magic_pos. cbv zeta.
+  pose proof (magic_slot_nonneg index p) as N. set (i := magic_slot index p) in *.
+  set (j := Nat.min (Z.to_nat i) (List.length p)).
+  assert (py_insert i (OConst (CInt magic)) p = firstn j p ++ OConst (CInt magic) :: skipn j p) as E1.
+  { unfold py_insert. destruct (i <? 0)%Z eqn:E; [lia|].
+    replace (Z.to_nat (Z.min i (Z.of_nat (List.length p)))) with j by (unfold j; lia). reflexivity. }
+  assert (j <= List.length p) as L by (unfold j; lia).
+  assert (List.length (firstn j p) = j) as FL by (rewrite firstn_length; lia).
+  rewrite E1. unfold py_insert. destruct (i + 1 <? 0)%Z eqn:E; [lia|].
+  match goal with |- context[Z.to_nat (Z.min (i + 1) (Z.of_nat ?len))] =>
+    replace (Z.to_nat (Z.min (i + 1) (Z.of_nat len))) with (List.length (firstn j p) + 1) end.
+  2:{ rewrite app_length. cbn [List.length]. rewrite skipn_length, FL. unfold j. lia. }
   rewrite firstn_app_2, skipn_app. cbn [firstn].
-  rewrite skipn_all2 by lia. replace (List.length (firstn i p) + 1 - List.length (firstn i p)) with 1 by lia.
+  rewrite skipn_all2 by lia.
+  replace (List.length (firstn j p) + 1 - List.length (firstn j p)) with 1 by lia.
   cbn [skipn app]. rewrite <- app_assoc. reflexivity.
 Qed.
 
+(* the marker is invisible to the VM wherever it is placed -- ANY index, positive, negative or out of
+   range (Python clamps): the rewritten program runs to exactly the same final state *)
+Theorem magic_run_same magic index p s :
+  vrun_from (insert_magic_int magic index p) s = vrun_from p s.
+Proof. rewrite magic_shape, firstn_skipn_run, firstn_skipn. reflexivity. Qed.
+
+(* default position: just before the last opcode *)
 Lemma magic_shape_default magic q s :
   insert_magic_int magic (-1) (q ++ [s]) = q ++ [OConst (CInt magic); OPop; s].
 Proof.
-  unfold insert_magic_int. cbn [Z.eqb]. rewrite py_insert_last.
-  replace (q ++ [OConst (CInt magic); s]) with ((q ++ [OConst (CInt magic)]) ++ [s])
-    by (rewrite <- app_assoc; reflexivity).
-  rewrite py_insert_last, <- app_assoc. reflexivity.
-Qed.
-
-(* the marker is invisible to the VM wherever it is placed (default position, or any index
-   0 <= i <= len): the rewritten program runs to exactly the same final state *)
-Theorem magic_run_same magic index p s :
-  (index = (-1)%Z /\ p <> []) \/ (0 <= index <= Z.of_nat (List.length p))%Z ->
-  vrun_from (insert_magic_int magic index p) s = vrun_from p s.
-Proof.
-  intros [[-> NE]|R].
-  - destruct (exists_last NE) as (q & x & ->). rewrite magic_shape_default.
-    change (q ++ [OConst (CInt magic); OPop; x]) with (q ++ OConst (CInt magic) :: OPop :: [x]).
-    apply firstn_skipn_run.
-  - replace index with (Z.of_nat (Z.to_nat index)) by lia.
-    rewrite magic_shape_nonneg by lia. rewrite firstn_skipn_run, firstn_skipn. reflexivity.
+  rewrite magic_shape. unfold magic_pos, magic_slot. cbn [Z.ltb Z.compare].
+  rewrite app_length. cbn [List.length].
+  replace (Nat.min (Z.to_nat (Z.max (Z.of_nat (List.length q + 1) + -1) 0)) (List.length q + 1))
+    with (List.length q + 0) by lia.
+  rewrite firstn_app_2, skipn_app. cbn [firstn]. rewrite app_nil_r.
+  rewrite skipn_all2 by lia. replace (List.length q + 0 - List.length q) with 0 by lia.
+  cbn [skipn app]. reflexivity.
 Qed.
 
 (* ------------------------------------------------------------------ FRAME lemma for the reference VM
